@@ -37,6 +37,7 @@ static std::string scn_text(const Scn &s) {
     return t;
 }
 
+static size_t pair_req_len(int i) { return std::string("GET /a" + std::to_string(i) + "z HTTP/1.1\r\nHost: h.example\r\n\r\n").size(); }
 struct Tags { std::vector<std::string> completes; };
 static thread_local Tags *g_tags;
 
@@ -51,7 +52,7 @@ static std::pair<std::string, std::string> run_scn(const Scn &s) {
     std::vector<std::string> qch = vdrv::cut_at(rq, s.qcuts), sch = vdrv::cut_at(rs, s.scuts);
     size_t qi = 0, si = 0, qoff = 0, soff = 0; std::string qpend, spend; // pend: unconsumed remainder to re-offer first
     bool tunnel_seen = false; size_t ntx_at_tunnel = 0; bool response_offered = false;
-    std::string err, detail;
+    std::string err, detail, req_error_state;
     auto fail = [&](const std::string &sig, const std::string &d) { if (err.empty()) { err = sig; detail = d; } };
     size_t events_before;
     // one request call with the next chunk (or only the pending remainder); returns false when nothing was offered
@@ -66,6 +67,7 @@ static std::pair<std::string, std::string> run_scn(const Scn &s) {
         if (tunnel_seen) { if (c.rc != HTP_STREAM_TUNNEL) fail("tunnel_not_sticky:request", "request call returned " + std::to_string(c.rc) + " after tunnel mode was entered"); if (cbs) fail("callbacks_in_tunnel_mode:request", std::to_string(cbs) + " callbacks during a request call in tunnel mode"); if (c.ntx != ntx_at_tunnel) fail("transactions_created_in_tunnel_mode", "transaction count changed in tunnel mode"); return true; }
         if (c.rc == HTP_STREAM_TUNNEL) { tunnel_seen = true; ntx_at_tunnel = c.ntx; return true; }
         if (c.rc == HTP_STREAM_DATA_OTHER) qpend = chunk.substr(std::min(c.consumed, chunk.size()));
+        if (c.rc == HTP_STREAM_ERROR && req_error_state.empty()) req_error_state = ss.connp()->in_state == htp_connp_REQ_CONNECT_PROBE_DATA ? "REQ_CONNECT_PROBE_DATA" : c.in_state; // (htp_connp_in_state_as_string does not know the probe state)
         // (a) consumption around the CONNECT head
         if (s.kind == 0) {
             size_t end = base + chunk.size();
@@ -105,18 +107,28 @@ static std::pair<std::string, std::string> run_scn(const Scn &s) {
         bool progressed = false;
         if (qi < qch.size() || !qpend.empty()) progressed |= do_req(false);
         bool res_allowed = !s.expect_tunnel || tunnel_seen || soff < res_head_end;
+        if (!s.expect_tunnel && soff >= res_head_end && si < sch.size()) {
+            // legal interleaving: the response to payload request a_k is offered only after every byte of that request was offered
+            size_t rel_end = soff + sch[si].size() - res_head_end; int k = -1; // the last pair whose response has any byte in this chunk
+            for (int i = 0; i < s.n_after; i++) { size_t st = s.res_pay.find("HTTP/1.1 200 OK\r\nX-Pair: a" + std::to_string(i) + "z"); if (st != std::string::npos && st < rel_end) k = i; }
+            size_t need = head_end; for (int i = 0; i <= k; i++) need += pair_req_len(i);
+            if (qoff - qpend.size() < need && (qi < qch.size() || !qpend.empty())) res_allowed = false;
+        }
         if (res_allowed && (si < sch.size() || !spend.empty())) progressed |= do_res(false);
         if (!progressed) break;
     }
     size_t tunnel_calls_req = 0; for (auto &c : ss.result().calls) if (c.rc == HTP_STREAM_TUNNEL) tunnel_calls_req++;
     bool livelock = false; for (auto &v : ss.result().violations) if (v.rfind("C09:handover_livelock", 0) == 0) livelock = true;
     ss.close();
+    if (getenv("C16_TRACE")) { for (auto &c : ss.result().calls) { printf("call %c len=%zu rc=%d consumed=%zu in=%s out=%s ntx=%zu\n", c.kind, c.len, c.rc, c.consumed, c.in_state, c.out_state, c.ntx); for (size_t j = c.ev_begin; j < c.ev_end; j++) printf("    cb %s tx%d\n", vdrv::hook_name(ss.result().events[j].hook), ss.result().events[j].tx); } for (auto &t : tags.completes) printf("complete %s\n", t.c_str()); }
     vdrv::Result &r = ss.finish(); g_tags = nullptr;
     for (auto &v : r.violations) if (v.rfind("C16:", 0) == 0) fail(v.substr(4), "monitor: " + v);
     if (livelock) fail("handover_livelock", "DATA_OTHER ping-pong without progress");
     if (err.empty()) {
         if (s.expect_tunnel) {
-            if (!tunnel_seen && (qoff >= rq.size())) fail("tunnel_mode_not_entered", "2xx/101 answered and non-HTTP payload (with LF/NUL) fully offered, but no call ever returned TUNNEL");
+            bool decidable = s.payload != 4 || s.pay.size() > 18000; // without LF/NUL the probe may keep waiting, but not beyond what it is able to buffer
+            if (!tunnel_seen && qoff >= rq.size() && decidable) { std::string at; if (s.payload == 4 && req_error_state.find("CONNECT_PROBE_DATA") != std::string::npos) at = "@probe_over_hard_limit";
+                fail("tunnel_mode_not_entered" + at, "2xx/101 answered and non-HTTP payload fully offered (" + std::to_string(s.pay.size()) + " bytes" + (s.payload == 4 ? ", no LF/NUL" : "") + "), but no call ever returned TUNNEL" + (req_error_state.empty() ? "" : "; request direction failed in " + req_error_state)); }
         } else {
             if (tunnel_seen) fail("unexpected_tunnel_mode", "tunnel mode entered although the CONNECT was refused / the payload is plain HTTP");
             // every tagged pair complete exactly once, in order
@@ -125,7 +137,8 @@ static std::pair<std::string, std::string> run_scn(const Scn &s) {
             size_t gi = 0;
             for (auto &w : want) {
                 size_t cnt = 0; for (auto &g : got) if (g.find("/" + w + "z") != std::string::npos || (w == "cx" && g.find("|cxz") != std::string::npos)) cnt++;
-                if (w == "cx") { if (cnt != 1) fail("connect_transaction_complete_count", "the CONNECT/upgrade transaction was completed " + std::to_string(cnt) + " times"); continue; }
+                if (w == "cx") { bool must = s.payload == 0 || !(s.status >= 200 && s.status <= 299); // a 2xx CONNECT without client payload stays open
+                    if (cnt > 1 || (must && cnt != 1)) fail("connect_transaction_complete_count", "the CONNECT/upgrade transaction was completed " + std::to_string(cnt) + " times"); continue; }
                 if (cnt != 1) { fail("tagged_request_reported_" + std::to_string(cnt) + "_times", "request " + w + " reported complete " + std::to_string(cnt) + " times (skipped or parsed twice)"); break; }
                 for (auto &g : got) if (g.find("/" + w + "z") != std::string::npos && g.find("|" + w + "z") == std::string::npos) fail("response_attached_to_wrong_request", "request " + w + " completed with response tag \"" + g.substr(g.find('|') + 1) + "\"");
                 (void)gi;
@@ -149,7 +162,7 @@ static Scn gen_scn() {
         s.status = ST0[rcx::range(0, 9)]; bool ok2xx = s.status >= 200 && s.status <= 299;
         s.res_body = !ok2xx && rcx::coin();
         s.res_head = "HTTP/1.1 " + std::to_string(s.status) + " X\r\nX-Pair: cxz\r\n" + (s.res_body ? "Content-Length: 7\r\n\r\nrefused" : (ok2xx ? "\r\n" : "Content-Length: 0\r\n\r\n"));
-        s.payload = ok2xx ? rcx::range(0, 3) : (rcx::chance(3, 4) ? 0 : 3);
+        s.payload = ok2xx ? (rcx::chance(1, 12) ? 4 : rcx::range(0, 3)) : (rcx::chance(3, 4) ? 0 : 3);
     } else {
         s.head = "GET /up HTTP/1.1\r\nHost: h.example\r\nConnection: Upgrade\r\nUpgrade: websocket\r\n\r\n";
         s.status = rcx::chance(3, 4) ? 101 : 200; s.res_body = false;
@@ -159,12 +172,15 @@ static Scn gen_scn() {
     if (s.payload == 0) { s.n_after = rcx::range(1, 3); for (int i = 0; i < s.n_after; i++) { s.pay += pair_req("a" + std::to_string(i)); s.res_pay += pair_res("a" + std::to_string(i), rcx::range(0, 4)); } }
     else if (s.payload == 1) { s.pay = std::string("\x16\x03\x01\x00\xa5\x01\x00\x00\xa1\x03\x03", 11); int n = rcx::range(10, 120); for (int i = 0; i < n; i++) s.pay += (char)rcx::range(0, 255); s.pay += '\n'; s.res_pay = std::string("\x16\x03\x03\x00\x31\x02\x00\x00", 8); int m = rcx::range(0, 60); for (int i = 0; i < m; i++) s.res_pay += (char)rcx::range(0, 255); }
     else if (s.payload == 2) { int n = rcx::range(1, 40); for (int i = 0; i < n; i++) { char ch = (char)rcx::range(0x80, 0xff); s.pay += ch; } s.pay += rcx::coin() ? '\n' : '\0'; int m = rcx::range(0, 100); for (int i = 0; i < m; i++) s.pay += (char)rcx::range(0, 255); s.res_pay = "SSH-2.0-x\r\n"; }
+    else if (s.payload == 4) { // binary payload that carries neither LF nor NUL: shorter than, around, or beyond the hard field limit (18000 by default)
+        static const int LN[] = {40, 900, 17990, 18010, 19000, 40000}; int n = LN[rcx::range(0, 5)] + rcx::range(0, 9); uint64_t x = (uint64_t)rcx::range(1, 1 << 30); // one generated value expanded deterministically (40000 separate draws would make shrinking useless)
+        for (int i = 0; i < n; i++) { x = vc::mix(x + (uint64_t)i); int ch = 1 + (int)(x % 255); if (ch == '\n') ch = 0xfe; s.pay += (char)ch; } if ((unsigned char)s.pay[0] < 0x80) s.pay[0] = (char)0x80; s.res_pay = "SSH-2.0-x\r\n"; }
     bool ok2xx = s.status >= 200 && s.status <= 299;
-    s.expect_tunnel = (s.kind == 0 && ok2xx && (s.payload == 1 || s.payload == 2)) || (s.kind == 1 && s.status == 101);
+    s.expect_tunnel = (s.kind == 0 && ok2xx && (s.payload == 1 || s.payload == 2 || s.payload == 4)) || (s.kind == 1 && s.status == 101);
     if (s.expect_tunnel && s.payload == 3) s.res_pay.clear();
     if (s.kind == 1 && s.status == 101 && s.payload == 3) { s.pay.clear(); s.res_pay.clear(); }
     std::string rq = s.pre_req + s.head + s.pay, rs = s.pre_res + s.res_head + s.res_pay;
-    auto cuts = [&](size_t len, const std::vector<size_t> &bias) { std::vector<size_t> v; int st = rcx::range(0, 3); if (st == 0) { int n = rcx::range(0, 5); for (int i = 0; i < n && len > 1; i++) v.push_back((size_t)rcx::range(1, (int)len - 1)); } else if (st == 1) { size_t step = (size_t)rcx::range(1, 30); for (size_t p = step; p < len; p += step) v.push_back(p); } else if (st == 2) { for (size_t b : bias) { long d = rcx::range(-4, 4); long p = (long)b + d; if (p > 0 && p < (long)len) v.push_back((size_t)p); } }
+    auto cuts = [&](size_t len, const std::vector<size_t> &bias) { std::vector<size_t> v; int st = rcx::range(0, 3); if (st == 0) { int n = rcx::range(0, 5); for (int i = 0; i < n && len > 1; i++) v.push_back((size_t)rcx::range(1, (int)len - 1)); } else if (st == 1) { size_t step = (size_t)rcx::range(1, 30); if (len > 2000) step = len / (size_t)rcx::range(3, 60); for (size_t p = step; p < len; p += step) v.push_back(p); } else if (st == 2) { for (size_t b : bias) { long d = rcx::range(-4, 4); long p = (long)b + d; if (p > 0 && p < (long)len) v.push_back((size_t)p); } }
         std::sort(v.begin(), v.end()); v.erase(std::unique(v.begin(), v.end()), v.end()); return v; };
     size_t he = s.pre_req.size() + s.head.size();
     s.qcuts = cuts(rq.size(), {he, he, s.pre_req.size()}); s.scuts = cuts(rs.size(), {s.pre_res.size() + s.res_head.size(), s.pre_res.size()});
@@ -175,14 +191,14 @@ static Scn gen_scn() {
 }
 
 static void campaign() {
-    int cases = A.thorough() ? 60000 : 6000;
+    int cases = A.thorough() ? 300000 : 30000;
     rcx::run("connect_upgrade_tunnel", vc::mix(A.seed * 223 + A.shard), cases, 100, [&]() -> std::optional<rcx::Fail> {
         Scn s = gen_scn();
         std::string text = scn_text(s); vc::set_current_case(text);
         auto r = run_scn(s);
         if (!rcx::shrinking()) {
             g_stats.evaluations++; g_stats.cls(s.kind == 0 ? "connect" : "upgrade"); g_stats.cls("status_" + std::to_string(s.status)); g_stats.cls(s.expect_tunnel ? "expect_tunnel" : "expect_http_resumes");
-            static const char *PN[] = {"payload_http", "payload_tls_like", "payload_random", "payload_none"}; g_stats.cls(PN[s.payload]);
+            static const char *PN[] = {"payload_http", "payload_tls_like", "payload_random", "payload_none", "payload_without_lf_or_nul"}; g_stats.cls(PN[s.payload]);
             size_t he = s.pre_req.size() + s.head.size(); bool same_chunk = !s.pay.empty() && std::find(s.qcuts.begin(), s.qcuts.end(), he) == s.qcuts.end(); bool near = false; for (size_t c : s.qcuts) if (c + 4 >= he && c < he) near = true;
             if (same_chunk) g_stats.cls("payload_in_same_chunk_as_connect_head"); if (near) g_stats.cls("cut_within_last_4_bytes_of_head");
             if (same_chunk || near) g_stats.nt(vc::fnv1a(text));
